@@ -70,17 +70,17 @@ def witness331 : List Op :=
     .cpSign 0 false (Info.ofCp [⟨0, 100000, 600⟩] []),
     .cpSign 1 false (Info.ofCp [] [⟨0, 100000, 500⟩]),
     .hValidate 0 false (Info.ofHolder [] []), .revoke 0,
-    .approve 0 ⟨1000, 1600000060, 0⟩,
+    .approve 0 ⟨1000, 1600000060, [0, 0]⟩ 1600000000,
     .cpSign 2 false (Info.ofCp [] []) ]
 
 /-- Witness 2 (pruned while in flight): keysend approved, paid on channel 0, preimage seen, invoice and
     payment entry pruned by the heartbeat while the HTLC is still in the commitment, approved again,
     paid again on channel 1. -/
 def witnessPrune : List Op :=
-  [ .approve 0 ⟨100000000, 1600000060, 0⟩,
+  [ .approve 0 ⟨100000000, 1600000060, [0, 0]⟩ 1600000000,
     .cpSign 0 false (Info.ofCp [] [⟨0, 100000, 500⟩]),
     .fulfill 0, .heartbeat 1600000061,
-    .approve 0 ⟨100000000, 1600000121, 0⟩,
+    .approve 0 ⟨100000000, 1600000121, [0, 0]⟩ 1600000061,
     .cpSign 1 false (Info.ofCp [] [⟨0, 100000, 500⟩]) ]
 
 theorem witness331_overpaid : (run (Node.init 3 pol0) witness331).map (overpaid · 0) = some true := by
@@ -147,6 +147,29 @@ theorem C06_unbacked {n n' : Node} {c : Nat} {r : Bool} {info : Info} (h : Hash)
       | err => simp [hv] at hs
       | panic => simp [hv] at hs
 
+/-- **C06 (a refused approval backs nothing).**  When the velocity control refuses an approval
+    (`Ok(false)`), no invoice and no payment entry is registered — the hash stays exactly as unapproved
+    and as unseen as before, so by `C06_unbacked` an outgoing HTLC for it is still refused unless covered;
+    and a retried identical approval meets the velocity control again (it is not "already approved"). -/
+theorem C06_declined {n n' : Node} {h : Hash} {inv : Invoice} {now : Nat}
+    (hd : n.approve h inv now = (n', .declined)) :
+    n'.invoices = n.invoices ∧ n'.payments = n.payments ∧ n'.disk = n.disk ∧ n'.chans = n.chans ∧
+    n.invoices h = none := by
+  unfold Node.approve at hd
+  cases hinv : n.invoices h with
+  | some old =>
+    simp only [hinv] at hd
+    split at hd <;> cases hd
+  | none =>
+    simp only [hinv] at hd
+    cases hvi : n.vc.mem.insert now inv.amount with
+    | none => simp [hvi] at hd
+    | some res =>
+      obtain ⟨v, okv⟩ := res
+      cases okv with
+      | false => simp only [hvi] at hd; cases hd; exact ⟨rfl, rfl, rfl, rfl, rfl⟩
+      | true => simp only [hvi] at hd; cases hd
+
 /-- **C06 (restart).**  A restart (persisted invoices and preimages, payments rebuilt by
     `restore_payments` from the current commitments of every channel) keeps the invariant, leaves the
     ghost ledger and the approvals unchanged, and leaves the node's per-channel amounts exactly equal to
@@ -176,7 +199,7 @@ instance freshRunDec : (n : Node) → (ops : List Op) → Decidable (FreshRun n 
 /-- a fresh history with a multi-part payment over three channels up to amount + fee allowance, the F2
     shape (pending holder commitment on 0, signing on 1, revocation on 0 refused), a restart and a retry -/
 def sample : List Op :=
-  [ .approve 1 ⟨100000000, 1600000060, 1⟩,
+  [ .approve 1 ⟨100000000, 1600000060, [0, 1]⟩ 1600000000,
     .hValidate 0 false (Info.ofHolder [⟨1, 50000, 500⟩] []),
     .cpSign 1 false (Info.ofCp [] [⟨1, 50000, 500⟩]),
     .cpSign 2 false (Info.ofCp [] [⟨1, 50222, 500⟩]),
@@ -208,6 +231,17 @@ example : ∃ n, run (Node.init 3 pol0) sample = some n ∧ Inv n ∧ totalOut n
 example :
     ((Node.init 2 pol0).hValidate 0 false (Info.ofHolder [] [⟨2, 2000, 600⟩])).2 = .ok ∧
     ((Node.init 2 pol0).cpSign 0 false (Info.ofCp [] [⟨2, 2000, 500⟩])).2 = .err := by
+  decide +kernel
+
+/-- `C06_declined` is not vacuous: under an hourly limit of 150 000 sat a second 100 000 sat approval is
+    declined, the outgoing HTLC for its hash is then refused, and the retried approval is declined again -/
+example :
+    let n0 := Node.init 2 pol0 ⟨150000000, .hourly⟩
+    let n1 := (n0.approve 0 ⟨100000000, 1600000060, [0, 0]⟩ 1600000000).1
+    let r2 := n1.approve 1 ⟨100000000, 1600000060, [0, 1]⟩ 1600000000
+    r2.2 = .declined ∧
+    (r2.1.cpSign 0 false (Info.ofCp [] [⟨1, 100000, 500⟩])).2 = .err ∧
+    (r2.1.approve 1 ⟨100000000, 1600000060, [0, 1]⟩ 1600000000).2 = .declined := by
   decide +kernel
 
 end VlsModel.Props.C06
